@@ -38,7 +38,7 @@ var nastyStrings = []string{
 	"1.2.3.4", "1.2.3.4.in-addr.arpa", "::", "::1%eth0", "[::1]:53", "1.2.3.4:80", "1:2:3:4:5:6:7:1.2.3.4", "%", ":", "[", "]",
 	"example.org", "_srv._tcp.example.org", "xn--", "xn--a.b", "İn-addr.arpa", "\xff\xfe", "a\x00b", "\"", "\"\"", "null", "{}",
 	"http://u:p@h/p?q#f", "#", "//", "/%2f^", "1h0m0s", "-1ns", "9223372036854775807ns", "1.2.3.4/33", "::/129", "1.2.3.0/24",
-	"Θεός", "θ", "ϑx", "Ιι", "Тт", "ᲄ", "the Θεός of the ancient Greeks", "DISK", "ſs", "Kk",
+	"_a--b", "_my--svc._tcp.example.com", "a--b.example", "Θεός", "θ", "ϑx", "Ιι", "Тт", "ᲄ", "the Θεός of the ancient Greeks", "DISK", "ſs", "Kk",
 	" \t# c", "1.2.3.4 a b # c", "1.2.3.4\tA a", "::1 localhost", "a,b , ,c", "K", "ſ", "0.0.0.0.0.0.0.0.0.0.0.0.0.0.0.0.0.0.0.0.0.0.0.0.0.0.0.0.0.0.0.0.ip6.arpa",
 }
 
